@@ -4,6 +4,7 @@ import importlib
 # property id -> (gen file name, module holding TARGETS) list
 GEN = {
     'C01': [('Gen_C01', 'props.t_C01')],
+    'C08': [('Gen_C08', 'props.t_C08')],
 }
 
 PROPS = sorted(GEN)
